@@ -179,7 +179,7 @@ func VerifC18_q_faultThenFollowUp() {
 	verifAssert("C18/no-lock-held-after-follow-up", w.noLockHeld(), "a key lock is still held after the follow-up calls")
 }
 
-// BOUND: topology 0; a statefulset pod (symbolic policy) bound and running; then 2 steps, each out of {the administrator's release API for its IP (refused while the pod runs, accepted once it is gone), the pod finishes, the pod is deleted, a queued event is handled, a resync pass}; after every step no pod / pool key lock may be left held; finally the same-named pod is re-created, filtered and bound and a resync pass runs (all of which take the same key locks)
+// BOUND: topology 0; a statefulset pod (symbolic policy) bound and running; then 2 steps (thorough: 3), each out of {the administrator's release API for its IP (refused while the pod runs, accepted once it is gone), the pod finishes, the pod is deleted, a queued event is handled, a resync pass}; after every step no pod / pool key lock may be left held; finally the same-named pod is re-created, filtered and bound and a resync pass runs (all of which take the same key locks)
 func VerifC18_q_operationsLeaveNoLock() {
 	w := vpNewWorld(0, false)
 	if err := w.configure(); err != nil {
@@ -198,7 +198,7 @@ func VerifC18_q_operationsLeaveNoLock() {
 	w.syncListers()
 	ip := vpBoundIPs(w.pods[name])[0]
 	verifAssert("C18/no-lock-held-after-bind", w.noLockHeld(), "a key lock is still held after filter and bind returned")
-	for i := 0; i < 2; i++ {
+	for i := 0; i < 2+verifTier(); i++ {
 		switch nondetChoice(5) {
 		case 0:
 			_ = w.apiRelease(ip)
